@@ -144,6 +144,8 @@ impl<M: MemBuilder> AnyVecRaw<M> {
         where M::Mem: MemResizable
     {
         let new_len = cmp::max(self.len, min_capacity);
+        // Never grow: if capacity is already below the lower limit - this is no-op.
+        let new_len = cmp::min(self.capacity(), new_len);
         self.mem.resize(new_len);
     }
 
